@@ -10,8 +10,10 @@ CONSTANTS
   DotAll = TRUE
   FindFirst = FALSE
   Emit = "none"
+  BlockLen = 2
 SPECIFICATION Spec
 INVARIANT MatchesIffGlob
 INVARIANT BadEscapeRaises
 INVARIANT RefSanity
+INVARIANT BlockInvariance
 CHECK_DEADLOCK FALSE
